@@ -38,6 +38,10 @@ ARRANGEMENTS = {
     "typeshare_attr": "#[typeshare(Qword)]",
     "other_attr_name": "#[Qattr(default)]",
     "skip_serializing_if": '#[serde(skip_serializing_if = "Option::is_none", Qword)]',
+    "after_bare_word": "#[serde(skip_serializing, Qword)]",
+    "before_bare_word": "#[serde(Qword, skip_serializing)]",
+    "between_bare_words": '#[serde(skip_deserializing, rename = "x", Qword, skip_serializing)]',
+    "second_attr_after_bare": "#[serde(skip_serializing)] #[serde(Qword)]",
 }
 TYPES_P = [("u32", False), ("Option<u32>", True), ("Option<Option<u32>>", True), ("Box<Option<u32>>", True), ("Option<Box<u32>>", True),
            ("&'static Option<String>", True), ("Arc<Option<Foo>>", True), ("Vec<Option<u32>>", False), ("std::option::Option<u32>", True),
